@@ -26,6 +26,14 @@ pub enum Op {
     Combined(String, String),
     ChecksumText(String),
     QualsFromPairs(Vec<(String, String)>),
+    /// format the value parsed from the string into a sink that accepts `budget` bytes (every chunk
+    /// that does not fit is refused): an environment fault at every point of the output
+    FormatLimited(String, usize),
+    /// serde: deserialise the string as GenericPurl<String> (0) / Purl (2); serialise the parsed value
+    Deserialize(u8, String),
+    Serialize(u8, String),
+    /// a typed checksum assembled from raw entries, handed to the builder
+    ChecksumEntries(Vec<(String, String)>),
 }
 
 impl Op {
@@ -37,6 +45,10 @@ impl Op {
             Op::Combined(t, s) => json!({"combined": s, "ty": t}),
             Op::ChecksumText(s) => json!({"checksum": s}),
             Op::QualsFromPairs(p) => json!({"try_from_iter": p}),
+            Op::FormatLimited(s, b) => json!({"format_limited": s, "budget": b}),
+            Op::Deserialize(f, s) => json!({"deserialize": s, "flavor": f}),
+            Op::Serialize(f, s) => json!({"serialize": s, "flavor": f}),
+            Op::ChecksumEntries(e) => json!({"checksum_entries": e}),
         }
     }
     pub fn from_json(v: &Value) -> Option<Op> {
@@ -56,6 +68,18 @@ impl Op {
         if let Some(s) = v["checksum"].as_str() {
             return Some(Op::ChecksumText(s.to_owned()));
         }
+        if let Some(s) = v["format_limited"].as_str() {
+            return Some(Op::FormatLimited(s.to_owned(), v["budget"].as_u64()? as usize));
+        }
+        if let Some(s) = v["deserialize"].as_str() {
+            return Some(Op::Deserialize(v["flavor"].as_u64()? as u8, s.to_owned()));
+        }
+        if let Some(s) = v["serialize"].as_str() {
+            return Some(Op::Serialize(v["flavor"].as_u64()? as u8, s.to_owned()));
+        }
+        if let Some(e) = v["checksum_entries"].as_array() {
+            return Some(Op::ChecksumEntries(e.iter().filter_map(|p| Some((p[0].as_str()?.to_owned(), p[1].as_str()?.to_owned()))).collect()));
+        }
         let pairs = v["try_from_iter"].as_array()?;
         Some(Op::QualsFromPairs(pairs.iter().filter_map(|p| Some((p[0].as_str()?.to_owned(), p[1].as_str()?.to_owned()))).collect()))
     }
@@ -66,8 +90,10 @@ impl Op {
             Op::Build(..) => "C09",
             Op::TypeFromStr(_) => "C15",
             Op::Combined(..) => "C18",
-            Op::ChecksumText(_) => "C12",
+            Op::ChecksumText(_) | Op::ChecksumEntries(_) => "C12",
             Op::QualsFromPairs(_) => "C11",
+            Op::FormatLimited(..) => "C03",
+            Op::Deserialize(..) | Op::Serialize(..) => "C16",
         }
     }
 }
@@ -138,6 +164,64 @@ pub fn run_op(op: &Op, acc: &mut Acc) -> String {
                 format!("OK {:?} text={:?}", entries, text)
             },
         },
+        Op::FormatLimited(s, budget) => match <String as PFlavor>::parse(s) {
+            Err(e) => format!("ERR {e}"),
+            Ok(p) => {
+                use std::fmt::Write as _;
+                struct Limited {
+                    buf: String,
+                    left: usize,
+                }
+                impl std::fmt::Write for Limited {
+                    fn write_str(&mut self, s: &str) -> std::fmt::Result {
+                        if s.len() > self.left {
+                            return Err(std::fmt::Error);
+                        }
+                        self.left -= s.len();
+                        self.buf.push_str(s);
+                        Ok(())
+                    }
+                }
+                let mut sink = Limited { buf: String::new(), left: *budget };
+                let r = write!(sink, "{}", p);
+                format!("{:?} {:?}", r.is_ok(), sink.buf)
+            },
+        },
+        #[cfg(feature = "serde")]
+        Op::Deserialize(f, s) => {
+            let json = serde_json::to_string(s).unwrap_or_default();
+            match f {
+                0 => match serde_json::from_str::<purl::GenericPurl<String>>(&json) {
+                    Ok(p) => outcome_line::<String>(Ok(p)),
+                    Err(e) => format!("ERR {e}"),
+                },
+                #[cfg(feature = "typed")]
+                2 => match serde_json::from_str::<purl::Purl>(&json) {
+                    Ok(p) => outcome_line::<purl::PackageType>(Ok(p)),
+                    Err(e) => format!("ERR {e}"),
+                },
+                _ => "flavour not in this build".to_owned(),
+            }
+        },
+        #[cfg(feature = "serde")]
+        Op::Serialize(f, s) => match f {
+            0 => format!("{:?}", <String as PFlavor>::parse(s).map(|p| serde_json::to_string(&p).map_err(|e| e.to_string())).map_err(|e| e.to_string())),
+            #[cfg(feature = "typed")]
+            2 => format!("{:?}", <purl::PackageType as PFlavor>::parse(s).map(|p| serde_json::to_string(&p).map_err(|e| e.to_string())).map_err(|e| e.to_string())),
+            _ => "flavour not in this build".to_owned(),
+        },
+        #[cfg(not(feature = "serde"))]
+        Op::Deserialize(..) | Op::Serialize(..) => "serde not in this build".to_owned(),
+        Op::ChecksumEntries(entries) => {
+            let mut c = purl::qualifiers::well_known::Checksum::default();
+            for (a, h) in entries {
+                c.insert_raw(a, h.clone());
+            }
+            match purl::GenericPurlBuilder::new("t".to_owned(), "n").try_with_typed_qualifier(Some(c)) {
+                Ok(b) => format!("OK {:?}", b.parts.qualifiers.get("checksum")),
+                Err(e) => format!("ERR {e}"),
+            }
+        },
         Op::QualsFromPairs(pairs) => match purl::Qualifiers::try_from_iter(pairs.iter().map(|(k, v)| (k.as_str(), v.as_str()))) {
             Err(e) => format!("ERR {e}"),
             Ok(q) => format!("OK {:?} get(K)={:?}", q.iter().map(|(k, v)| (k.as_str().to_owned(), v.to_owned())).collect::<Vec<_>>(), q.get("K")),
@@ -195,6 +279,31 @@ pub fn alphabet(tier: Tier) -> Vec<Op> {
     for s in ["cargo", "gem", "golang", "maven", "npm", "nuget", "pypi", "CARGO", "Gem", "GoLang", "MAVEN", "Npm", "NuGet", "PyPI", "", "np", "npmm", "pip", "generic", "\u{212A}", "nu\u{212A}et", "pypı"] {
         push(Op::TypeFromStr(s.to_owned()), &mut ops);
     }
+    // neighbours of every name: padded, truncated, extended - right after the name itself is a hit
+    for name in ["cargo", "gem", "golang", "maven", "npm", "nuget", "pypi"] {
+        for v in [format!("{name} "), format!(" {name}"), format!("{name}\0"), format!("{name}\t"), format!("{}\0 ", name.to_ascii_uppercase()), format!("{name}s"), name[..name.len() - 1].to_owned(), format!("{name}{name}"), format!("{name}\u{301}")] {
+            push(Op::TypeFromStr(v), &mut ops);
+        }
+    }
+    // names that a coarser notion of equality (case FOLDING, normalisation, numeric value) identifies
+    // although their lower-case forms differ - for the types with a name rule, builder and parser
+    {
+        let mut fold: Vec<String> = crate::pools::NEAR.iter().map(|s| s.to_string()).collect();
+        for v in ["STRASSE", "Strasse.Tools", "straße.tools", "straße", "MASSE", "Maße", "ΟΔΟΣ", "οδος", "οδοσ", "ΟΔΟΣ_Lib", "οδος_lib", "ſ", "s", "S", "µ", "μ", "Μ", "ϐ", "β", "ẞ", "ﬀ", "ff", "İ", "i̇", "ı", "I"] {
+            fold.push(v.to_owned());
+        }
+        for v in fold {
+            if v.is_empty() {
+                continue;
+            }
+            for ty in ["nuget", "pypi"] {
+                let spec = BuildSpec { ty: ty.to_owned(), name: v.clone(), ..Default::default() };
+                push(Op::Build("PackageType", spec), &mut ops);
+            }
+            let enc: String = v.bytes().map(|b| format!("%{b:02X}")).collect();
+            push(Op::Parse(2, format!("pkg:nuget/{enc}")), &mut ops);
+        }
+    }
     for ty in ["cargo", "gem", "golang", "maven", "npm", "nuget", "pypi"] {
         for s in ["a", "a/b", "a:b", "@s/n", "g/h/n:m"] {
             push(Op::Combined(ty.to_owned(), s.to_owned()), &mut ops);
@@ -202,6 +311,48 @@ pub fn alphabet(tier: Tier) -> Vec<Op> {
     }
     for s in ["a:00", "B:FF,a:0A", "a:0a,b:ff", "a:00,A:11", "a:0", "zz", "", "É:00,é:11", "sha256:00ff,md5:aa", "a:00,"] {
         push(Op::ChecksumText(s.to_owned()), &mut ops);
+    }
+    // every kind of REFUSED call as a predecessor (and as a judged operation): all single faults of
+    // the fault menu on two rich tuples - a failing step must leave nothing behind
+    {
+        use crate::spell::{fault_menu, respell, FaultSel, SpecTuple};
+        let sv = |v: &[&str]| v.iter().map(|s| s.to_string()).collect::<Vec<String>>();
+        let tuples = [
+            SpecTuple { ty: "t".into(), typed: false, ns: sv(&["A b", "é"]), name: "n".into(), version: Some("1.0+b@2".into()), quals: vec![("checksum".into(), "a:00,b:ff0a".into()), ("k".into(), "x?y".into())], subpath: sv(&["a b", "é#"]) },
+            SpecTuple { ty: "npm".into(), typed: true, ns: sv(&["@s", ".."]), name: "N-_.m".into(), version: Some("v/1".into()), quals: vec![("checksum".into(), "md:00,md5:11".into()), ("k_".into(), "v".into()), ("kz".into(), "w".into())], subpath: sv(&["s", "t"]) },
+        ];
+        for t in &tuples {
+            let (canon, _) = respell(t, &[], None);
+            push(Op::Parse(if t.typed { 2 } else { 0 }, canon.clone()), &mut ops);
+            let menu = fault_menu(t);
+            for (site, n) in menu.iter().enumerate() {
+                for alt in 1..=*n {
+                    let (text, info) = respell(t, &[], Some(FaultSel { site, alt }));
+                    if info.is_some() {
+                        push(Op::Parse(if t.typed { 2 } else { 0 }, text.clone()), &mut ops);
+                        if tier == Tier::Thorough || (site + alt) % 4 == 0 {
+                            push(Op::Parse(if t.typed { 0 } else { 2 }, text), &mut ops);
+                        }
+                    }
+                }
+            }
+        }
+    }
+    // formatting into a sink that fails after every possible number of bytes
+    for s in ["pkg:t/g/n@1?a=1&k=v#s", "pkg:t/n?checksum=a:00&z=%20"] {
+        let full = <String as PFlavor>::parse(s).map(|p| p.to_string().len()).unwrap_or(0);
+        for b in 0..=full {
+            push(Op::FormatLimited(s.to_owned(), b), &mut ops);
+        }
+    }
+    for s in ["pkg:pypi/Foo_Bar@1.0", "pkg:nuget/Newtonsoft.Json", "pkg:maven/junit@4.13", "pkg:NPM/a", "pkg:t/n", "pkg:T/n?K=v", "pkg:t", "pkg:golang/g/n#s"] {
+        for f in [0u8, 2] {
+            push(Op::Deserialize(f, s.to_owned()), &mut ops);
+            push(Op::Serialize(f, s.to_owned()), &mut ops);
+        }
+    }
+    for e in [vec![], vec![("a", "00")], vec![("sha1", "00"), ("sha256", "zz")], vec![("md5", "AABB")], vec![("b", "0")], vec![("A", "ff"), ("a", "00")], vec![("crc32", "FF"), ("SHA256", "0102EF")]] {
+        push(Op::ChecksumEntries(e.iter().map(|(a, h)| (a.to_string(), h.to_string())).collect()), &mut ops);
     }
     for pairs in [vec![], vec![("k", "v")], vec![("K", "v")], vec![("b", "2"), ("A", "1")], vec![("a", "1"), ("A", "2")], vec![("!", "v")], vec![("k_", "1"), ("kz", "2"), ("K", "3")]] {
         push(Op::QualsFromPairs(pairs.iter().map(|(k, v)| (k.to_string(), v.to_string())).collect()), &mut ops);
@@ -214,7 +365,13 @@ pub fn alphabet(tier: Tier) -> Vec<Op> {
 pub fn explore(prop: &'static str, tier: Tier) -> (Acc, Value) {
     let ops = alphabet(tier);
     let n = ops.len();
-    let judged: Vec<usize> = (0..n).filter(|i| ops[*i].prop() == prop).collect();
+    let judged: Vec<usize> = (0..n)
+        .filter(|i| match prop {
+            // the package-type rules, from the parser and from the builder
+            "C08" => matches!(&ops[*i], Op::Parse(2, _) | Op::Build("PackageType", _)),
+            _ => ops[*i].prop() == prop,
+        })
+        .collect();
     // depth 2: every judged y after every x
     // (every job runs in a thread of its own, so that thread-local state starts fresh and a replay
     // of the recorded histories meets the same conditions)
@@ -246,10 +403,11 @@ pub fn explore(prop: &'static str, tier: Tier) -> (Acc, Value) {
     }).join().expect("history job"); }));
     let pairs = acc.evals;
     // depth 3 over a sub-alphabet (every k-th operation, all judged ones as y)
-    let step = if tier == Tier::Quick { 9 } else { 3 };
+    let (step, ystep) = if tier == Tier::Quick { (41, 7) } else { (13, 3) };
     let sub: Vec<usize> = (0..n).filter(|i| i % step == 0).collect();
-    let a3 = par_items(judged.len(), threads(), |ji, acc| std::thread::scope(|sc| { sc.spawn(|| {
-        let y = &ops[judged[ji]];
+    let judged3: Vec<usize> = judged.iter().copied().enumerate().filter(|(k, _)| k % ystep == 0).map(|(_, i)| i).collect();
+    let a3 = par_items(judged3.len(), threads(), |ji, acc| std::thread::scope(|sc| { sc.spawn(|| {
+        let y = &ops[judged3[ji]];
         let base = {
             let _ = run_op(&ops[sub[0]], acc);
             run_op(y, acc)
@@ -274,9 +432,115 @@ pub fn explore(prop: &'static str, tier: Tier) -> (Acc, Value) {
     }).join().expect("history job"); }));
     let triples = a3.evals;
     acc.merge(a3);
-    let rep = json!({"engine": "H-history-independence", "operations": n, "judged_operations": judged.len(), "depth2_sequences": pairs, "depth3_sub_alphabet": sub.len(), "depth3_sequences": triples,
+    let rep = json!({"engine": "H-history-independence", "operations": n, "judged_operations": judged.len(), "depth2_sequences": pairs, "depth3_sub_alphabet": sub.len(), "depth3_judged_operations": judged3.len(), "depth3_sequences": triples,
                      "oracle": "the outcome of an operation on fresh arguments is the same after every history"});
     (acc, rep)
+}
+
+// ------------------------------------------------------------------------------------------------
+// second shape: a VALUE held across unrelated calls
+
+fn hold_obs<T: PFlavor>(p: &purl::GenericPurl<T>) -> (String, bool, bool) {
+    let text = guarded(|| p.to_string()).unwrap_or_else(|m| format!("PANIC {m}"));
+    let rebuild = guarded(|| p.clone().into_builder().build().map(|q| &q == p && q.to_string() == text).unwrap_or(false)).unwrap_or(false);
+    let reparse = guarded(|| T::parse(&text).map(|q| &q == p && q.to_string() == text).unwrap_or(false)).unwrap_or(false);
+    (format!("{text} {:?}", observe(p)), rebuild, reparse)
+}
+
+fn hold_one<T: PFlavor>(prop: &'static str, p: &purl::GenericPurl<T>, y: &Op, xs: &[Op], acc: &mut Acc) {
+    let base = hold_obs(p);
+    for x in xs {
+        let _ = run_op(x, acc);
+        let now = hold_obs(p);
+        acc.evals += 1;
+        acc.nontrivial += 1;
+        let differs = match prop {
+            "C01" => now.2 != base.2 || !now.2,
+            "C10" => now.1 != base.1 || !now.1,
+            _ => now.0 != base.0,
+        };
+        acc.sig(&(now.1, now.2, now.0.len().min(30)));
+        if differs {
+            acc.violate(Violation {
+                prop,
+                kind: "held-value-depends-on-history".into(),
+                case: json!({"engine": "history-hold", "op": y.to_json(), "held_across": [x.to_json()]}),
+                detail: format!("a value obtained before an unrelated call and examined after it: (string and accessors, re-build equal, re-parse equal) was {:?}, is {:?}", base, now),
+            });
+        }
+    }
+}
+
+fn hold_dispatch(prop: &'static str, y: &Op, xs: &[Op], acc: &mut Acc) -> bool {
+    match y {
+        Op::Parse(0, s) => {
+            if let Ok(Ok(p)) = guarded(|| <String as PFlavor>::parse(s)) {
+                hold_one(prop, &p, y, xs, acc);
+                return true;
+            }
+        },
+        #[cfg(feature = "smart")]
+        Op::Parse(1, s) => {
+            if let Ok(Ok(p)) = guarded(|| <purl::SmallString as PFlavor>::parse(s)) {
+                hold_one(prop, &p, y, xs, acc);
+                return true;
+            }
+        },
+        #[cfg(feature = "typed")]
+        Op::Parse(2, s) => {
+            if let Ok(Ok(p)) = guarded(|| <purl::PackageType as PFlavor>::parse(s)) {
+                hold_one(prop, &p, y, xs, acc);
+                return true;
+            }
+        },
+        Op::Build("String", spec) => {
+            if let Ok(Built::Ok(p)) = guarded(|| build_with(spec.ty.clone(), spec, &mut Acc::new())) {
+                hold_one(prop, &p, y, xs, acc);
+                return true;
+            }
+        },
+        #[cfg(feature = "typed")]
+        Op::Build("PackageType", spec) => {
+            if let Some(pt) = <purl::PackageType as Flavor>::mk(&spec.ty) {
+                if let Ok(Built::Ok(p)) = guarded(|| build_with(pt, spec, &mut Acc::new())) {
+                    hold_one(prop, &p, y, xs, acc);
+                    return true;
+                }
+            }
+        },
+        _ => {},
+    }
+    false
+}
+
+/// Every value the alphabet produces, held across every operation of the alphabet.
+pub fn explore_hold(prop: &'static str, tier: Tier) -> (Acc, Value) {
+    let ops = alphabet(tier);
+    let n = ops.len();
+    let acc = par_items(n, threads(), |yi, acc| {
+        std::thread::scope(|sc| {
+            sc.spawn(|| {
+                hold_dispatch(prop, &ops[yi], &ops, acc);
+            })
+            .join()
+            .expect("history job");
+        })
+    });
+    let rep = json!({"engine": "H-history-independence", "shape": "a value held across every operation", "operations": n, "held_value_examinations": acc.evals,
+                     "oracle": "string form, accessors, re-build and re-parse of a value are the same before and after any unrelated call"});
+    (acc, rep)
+}
+
+pub fn replay_hold(prop: &'static str, case: &Value) -> Option<Vec<Violation>> {
+    let y = Op::from_json(&case["op"])?;
+    let xs: Vec<Op> = case["held_across"].as_array()?.iter().filter_map(Op::from_json).collect();
+    std::thread::spawn(move || {
+        let mut acc = Acc::new();
+        hold_dispatch(prop, &y, &xs, &mut acc);
+        acc.violations
+    })
+    .join()
+    .ok()
 }
 
 pub fn replay(prop: &'static str, case: &Value) -> Option<Vec<Violation>> {
